@@ -24,6 +24,12 @@ CHECKS = {
  "C15": ("exploration", "law checking on the real encoder/decoder (round trip, padding, bound, bombs) + differential twins hex vs base64 submission",
          "Published encoder and server-side decoder called directly on generated payloads around 0 and around 2^20 bytes, hand-packed frames, bombs, unknown prefixes, truncations; twin instances fed hex vs base64 fields compared on responses and Obs.",
          "Sampled payloads; near-limit payloads are few per run (zstd level 22 cost)."),
+ "C18": ("exploration", "reference-model monitor: 60-line reference filter over collected receipts vs eth_getLogs, committed / uncommitted / mixed",
+         "Generated filters (address x 0-4 topic positions x ranges/spellings) answered by the real engine are compared as lists with a reference filter over the receipts; every filter is asked before commit, after commit and with later uncommitted blocks; too-wide ranges must be refused.",
+         "Unspecified corners (empty alternative list, null inside a list, unparsable block tags) only checked for stability; sampled filters."),
+ "C19": ("exploration", "expectation monitor: probe contract records the execution context into storage, compared with what the history supplied",
+         "Hand-assembled Probe contract executed through inscription, signed and parked-then-drained transactions on three networks (Prague / Cancun), arbitrary timestamps/hashes/txids, reorgs and a >256-block chain; every recorded value compared with the expectation derived from the calls.",
+         "Sampled histories; deposits/withdrawals only checked for the sender (their txid is unobservable)."),
 }
 NOT_YET = "check not built yet in this session (planned, see DESIGN.md)"
 ALL = ["C%02d" % i for i in range(1, 21)]
